@@ -339,6 +339,39 @@ func runPrio(c *Ctx) {
 		c.R.Add("PRIO-P", "resolver|from-root", "resolver", p.InstrPos(dj), fromRoot, "the search starts at the input root", fmt.Sprintf("ok=%v", fromRoot))
 		sameG := searched != nil && ep.Common().Args[0] == searched
 		c.R.Add("PRIO-P", "resolver|path-read-from-searched-graph", "resolver", p.InstrPos(ep), sameG, "the path is reconstructed on the very graph value that was searched", fmt.Sprintf("ok=%v", sameG))
+		// the in-progress set restricts the search itself: it is consulted (looked up or ranged over) at a point that
+		// dominates the search of a requirement, so that a requirement whose cheapest path runs through a converter that
+		// is being reached falls back to another path. Consulted only after the path was chosen, it can only reject —
+		// a derivable parameter is then reported as unsatisfied (premise (a) of C05: cycles of one-input converters)
+		{
+			nUse, before := 0, false
+			p.RegionInstrs(res, func(in ssa.Instruction) {
+				var m ssa.Value
+				switch x := in.(type) {
+				case *ssa.Lookup:
+					m = x.X
+				case *ssa.Range:
+					m = x.X
+				default:
+					return
+				}
+				fr, ok := core.AsFieldLoad(m)
+				if !ok || fr.Owner != "callState" || core.TypeStr(m.Type()) != "map[interface{}]struct{}" {
+					return
+				}
+				nUse++
+				if in.Parent() == dj.Parent() && in.Block().Dominates(dj.Block()) && in.Block() != dj.Block() {
+					before = true
+				}
+				if in.Parent() == dj.Parent() && in.Block() == dj.Block() && core.InstrDominates(in, dj) {
+					before = true
+				}
+			})
+			if nUse > 0 {
+				c.R.Add("TERM-W4", "resolver|in-progress-set-restricts-the-search", "resolver", p.InstrPos(dj), before,
+					"the set of converters being reached is consulted before a requirement's path is searched (the search avoids them), not only to reject the path afterwards", ternary(before, "consulted before the search", "consulted only after the path was chosen: the cheapest path through a converter being reached is rejected and no other path is tried"))
+			}
+		}
 		// the functions on a path resolve their own inputs on the graph that path was searched on: the name preference of
 		// the requirement carries over to the nested resolution (on the plain graph same-typed named values tie there and
 		// map order picks one)
